@@ -280,7 +280,10 @@ pub fn script(rng: &mut Rng) -> String {
   let d0 = 1 + rng.below(4);
   let mut s = expr(rng, d0);
   // malformed variants
-  match rng.below(14) {
+  match rng.below(17) {
+    13 => s = "()".into(),
+    14 => s = format!("( ) {s}"),
+    15 => s = "(-)".into(),
     0 => s.push_str(" +"),
     1 => s = format!("({s}"),
     2 => s.push(')'),
